@@ -182,7 +182,17 @@ def step_harness(log, race=False):
 def run_model(lines):
     runner = os.path.join(COQ, "extract", "runner")
     inp = ("\n".join(lines) + "\n").encode()
-    p = subprocess.run([runner], input=inp, stdout=subprocess.PIPE, stderr=subprocess.PIPE, timeout=3000)
+    def big_stack():
+        # the extracted functions recurse over whole streams (not tail-recursively): give the native
+        # stack what the system allows rather than the 8 MB default
+        try:
+            import resource
+            soft, hard = resource.getrlimit(resource.RLIMIT_STACK)
+            want = hard if hard != resource.RLIM_INFINITY else 4 << 30
+            resource.setrlimit(resource.RLIMIT_STACK, (want, hard))
+        except Exception:
+            pass
+    p = subprocess.run([runner], input=inp, stdout=subprocess.PIPE, stderr=subprocess.PIPE, timeout=3000, preexec_fn=big_stack)
     outs = p.stdout.decode("latin-1").split("\n")
     if outs and outs[-1] == "":
         outs.pop()
